@@ -25,6 +25,8 @@ func vCheckOutcome(op string, w *vWorld, err error, preUsage int, preAmounts map
 		vAssert("C11/failed-"+op+"-keeps-workload-recorded", ok)
 		if ok {
 			vAssert("C11/failed-"+op+"-keeps-recorded-resources", vAmount(wl.Resources) == a)
+			// (in this world a workload's engine parameters are its resources)
+			vAssert("C11/failed-"+op+"-keeps-recorded-engine-parameters", vAmount(wl.EngineParams) == a)
 		}
 		ap, has := w.applied[id]
 		vAssert("C11/failed-"+op+"-keeps-container", has)
